@@ -708,7 +708,7 @@ class Rule(ScenarioContainer):
     def add_background(self, background, inherited=None):
         if inherited is None:
             feature = self.feature or self.parent
-            inherited = feature.background
+            inherited = feature.background if feature else None
 
         self.background = background
         self.background.inherited_background = inherited
